@@ -978,7 +978,7 @@ def _summ(d):
         d["form"], len(d["rows"]), d["columns"], None if d["y"] is None else d["y"][:3])
 
 
-def _first_diff(a, b):
+def _first_diff(a, b, index=True):
     """where two canonical results differ (None when they are equal)"""
     if "err" in a or "err" in b:
         return None if a == b else "one of them raised"
@@ -995,7 +995,7 @@ def _first_diff(a, b):
             return "labels %s vs %s" % (a["y"] and a["y"][:3], b["y"] and b["y"][:3])
         i = next(i for i, (x, y) in enumerate(zip(a["y"], b["y"])) if x != y)
         return "label %d (%r vs %r)" % (i, a["y"][i], b["y"][i])
-    if a["index"] != b["index"]:
+    if index and a["index"] != b["index"]:
         return "index %s... vs %s..." % (a["index"][:3], b["index"][:3])
     return None
 
@@ -1045,7 +1045,9 @@ def _history_oracle(case, out):
     for o in loads:
         for xy in (True, False):
             ref = out["ref"][_key(o["split"], xy)]
-            d = _first_diff(ref, _pure(out["files"], o["split"], xy))
+            # (row labels are not instances: which index the frames carry is only required to be the
+            # same in both forms and in every call, below)
+            d = _first_diff(ref, _pure(out["files"], o["split"], xy), index=False)
             if d:
                 return "loader-result-is-not-the-pure-function-of-the-files: %s as a first call " \
                        "vs train-then-test of the parsed files: %s" % (
